@@ -56,6 +56,8 @@ package statsd
 //@   callsite Set[pctStruct.sumSquares,] requires f == sumSquares
 //@   callsite Set[pctStruct.upper,] requires pct > 0.0 && f == timer.Values[kSpec(pct, n) - 1]
 //@   callsite Set[pctStruct.lower,] requires pct <= 0.0 && f == timer.Values[n - kSpec(pct, n)]
+//@   callsite latencyHistogram requires bucketLimit == a.histogramLimit && timer.Values == local(timer).Values && timer.Tags == local(timer).Tags
+//@   ensures  [hist] histTag(timer.Tags) ==> calls(latencyHistogram) == 1 && a.metricMap.Timers[key][tagsKey].Histogram == lastresult(latencyHistogram, 0) && a.metricMap.Timers[key][tagsKey].Tags == timer.Tags
 //@   ensures  [stats] key in a.metricMap.Timers && tagsKey in a.metricMap.Timers[key] && a.metricMap.Timers[key][tagsKey].Values == timer.Values
 //@   ensures  [stats] !histTag(timer.Tags) && len(timer.Values) > 0 ==> a.metricMap.Timers[key][tagsKey].Min == timer.Values[0] && a.metricMap.Timers[key][tagsKey].Max == timer.Values[len(timer.Values) - 1]
 //@   ensures  [stats] !histTag(timer.Tags) && len(timer.Values) > 0 ==> a.metricMap.Timers[key][tagsKey].Sum == psum(elems(timer.Values), off(timer.Values), len(timer.Values)) && a.metricMap.Timers[key][tagsKey].SumSquares == psumsq(elems(timer.Values), off(timer.Values), len(timer.Values))
@@ -82,8 +84,61 @@ package statsd
 //@   ensures  result == histTag(timer.Tags)
 
 //@ func mapToThresholds
+//@   floats real
 //@   ensures  base(result) == 0 || fresh(base(result))
-//@   loop 1 invariant base(lb) == 0 || fresh(base(lb))
+//@   ensures  [hist] len(result) == cntParse(elems(vs), off(vs), len(vs))
+//@   ensures  [hist] forall k int :: off(vs) <= k && k < off(vs) + len(vs) && parseFloatOK(at(vs, k)) ==> 0 <= cntParse(elems(vs), off(vs), k - off(vs)) && cntParse(elems(vs), off(vs), k - off(vs)) < len(result) && result[cntParse(elems(vs), off(vs), k - off(vs))] == parseFloatVal(at(vs, k))
+//@   loop 1 invariant (base(lb) == 0 || fresh(base(lb))) && len(lb) == cntParse(elems(vs), off(vs), rangeindex + 1) && -1 <= rangeindex
+//@   loop 1 invariant forall k int :: off(vs) <= k && k <= off(vs) + rangeindex && parseFloatOK(at(vs, k)) ==> 0 <= cntParse(elems(vs), off(vs), k - off(vs)) && cntParse(elems(vs), off(vs), k - off(vs)) < len(lb)
+//@   loop 1 invariant forall k int :: off(vs) <= k && k <= off(vs) + rangeindex && parseFloatOK(at(vs, k)) ==> lb[cntParse(elems(vs), off(vs), k - off(vs))] == parseFloatVal(at(vs, k))
+
+//@ func min
+//@   pure
+//@   ensures  result == imin(a, b)
+
+// ---- histograms (C08): the bucket bounds are the first `limit` parsable items of the gsd_histogram tag, each
+// bucket counts the values not greater than its bound, +Inf counts all of them ---------------------------------
+// mapToThresholds: item k of the list, when it parses, lands at position "number of parsable items before k" with
+// its parsed value, and nothing else is in the result (functional specification of the filter-map).
+// retrieveThresholds: the whole list produced by Split is parsed, and the result is the prefix of length
+// min(len, limit) of what was parsed (the limit applies to parsed bounds, not to the items of the tag). A tag
+// with 2^32 or more items is outside the statement (uint32(len) wraps).
+//@ func retrieveThresholds
+//@   floats real
+//@   ensures  [hist] !histTag(timer.Tags) ==> base(result) == 0 && len(result) == 0
+//@   ensures  [hist] histTag(timer.Tags) ==> base(result) != 0 && len(result) <= bucketlimit
+//@   ensures  [hist] histTag(timer.Tags) && len(lastresult(mapToThresholds, 0)) < 4294967296 ==> len(result) == imin(len(lastresult(mapToThresholds, 0)), bucketlimit)
+//@   ensures  [hist] histTag(timer.Tags) ==> forall i int :: 0 <= i && i < len(result) ==> result[i] == lastresult(mapToThresholds, 0)[i]
+//@   callsite mapToThresholds requires vs == lastresult(strings.Split, 0)
+
+// emptyHistogram: the keys are exactly the bounds retrieveThresholds returned, plus +Inf; every count is 0.
+//@ func emptyHistogram
+//@   floats real
+//@   ensures  [hist] bucketLimit == 0 ==> result != nil && len(result) == 0
+//@   ensures  [hist] bucketLimit != 0 && !histTag(timer.Tags) ==> result == nil
+//@   ensures  [hist] bucketLimit != 0 && histTag(timer.Tags) ==> result != nil && (posInf() in result) && len(result) <= bucketLimit + 1
+//@   ensures  [hist] result != nil ==> fresh(result) && (forall b gostatsd.HistogramThreshold :: b in result ==> result[b] == 0)
+//@   ensures  [hist] bucketLimit != 0 && histTag(timer.Tags) ==> forall b gostatsd.HistogramThreshold :: (b in result) ==> (b == posInf() || (exists i int :: 0 <= i && i < len(lastresult(retrieveThresholds, 0)) && lastresult(retrieveThresholds, 0)[i] == b))
+//@   ensures  [hist] bucketLimit != 0 && histTag(timer.Tags) ==> forall i int :: 0 <= i && i < len(lastresult(retrieveThresholds, 0)) ==> (lastresult(retrieveThresholds, 0)[i] in result)
+//@   loop 1 invariant local(result) != nil && fresh(local(result)) && len(local(result)) <= rangeindex + 1 && -1 <= rangeindex && rangeindex < len(thresholds) && (forall b gostatsd.HistogramThreshold :: b in local(result) ==> local(result)[b] == 0)
+//@   loop 1 invariant thresholds == lastresult(retrieveThresholds, 0)
+//@   loop 1 invariant forall b gostatsd.HistogramThreshold :: (b in local(result)) ==> (exists i int :: 0 <= i && i <= rangeindex && thresholds[i] == b)
+//@   loop 1 invariant forall i int :: 0 <= i && i <= rangeindex ==> (thresholds[i] in local(result))
+
+// latencyHistogram: every finite bucket of the empty histogram counts the values not greater than its bound.
+//@ func latencyHistogram
+//@   floats real
+//@   ensures  [hist] bucketLimit == 0 ==> result != nil && len(result) == 0
+//@   ensures  [hist] bucketLimit != 0 && !histTag(timer.Tags) ==> result == nil
+//@   ensures  [hist] bucketLimit != 0 && histTag(timer.Tags) ==> result != nil && (posInf() in result) && result[posInf()] == len(timer.Values) && len(result) <= bucketLimit + 1
+//@   ensures  [hist] forall b gostatsd.HistogramThreshold :: result != nil && (b in result) && b != posInf() ==> result[b] == cntLE(elems(timer.Values), off(timer.Values), len(timer.Values), b)
+//@   loop 1 invariant local(result) != nil && (posInf() in local(result)) && len(local(result)) <= bucketLimit + 1 && -1 <= rangeindex && histTag(timer.Tags) && bucketLimit != 0
+//@   loop 1 invariant forall b gostatsd.HistogramThreshold :: (b in local(result)) && b != posInf() ==> local(result)[b] == cntLE(elems(timer.Values), off(timer.Values), rangeindex + 1, b)
+//@   loop 2 invariant local(result) != nil && (posInf() in local(result)) && len(local(result)) <= bucketLimit + 1 && 0 <= rangeindex1 && rangeindex1 < len(timer.Values) && value == timer.Values[rangeindex1] && histTag(timer.Tags) && bucketLimit != 0
+//@   loop 1 invariant forall b gostatsd.HistogramThreshold :: (b in local(result)) && b != posInf() ==> 0 <= local(result)[b] && local(result)[b] <= rangeindex + 1
+//@   loop 2 invariant forall b gostatsd.HistogramThreshold :: (b in local(result)) && b != posInf() ==> 0 <= local(result)[b] && local(result)[b] <= rangeindex1 + ite(visited(1)[b], 1, 0)
+//@   loop 2 invariant forall b gostatsd.HistogramThreshold :: (b in local(result)) && b != posInf() && visited(1)[b] ==> local(result)[b] == cntLE(elems(timer.Values), off(timer.Values), rangeindex1, b) + ite(value <= b, 1, 0)
+//@   loop 2 invariant forall b gostatsd.HistogramThreshold :: (b in local(result)) && b != posInf() && !visited(1)[b] ==> local(result)[b] == cntLE(elems(timer.Values), off(timer.Values), rangeindex1, b)
 
 // ---- expiry (C09) -------------------------------------------------------------------------------------
 //@ pred isExpiredSpec(i time.Duration, now gostatsd.Nanotime, ts gostatsd.Nanotime) := i != 0 && wrap64(now - ts) > i
